@@ -3,7 +3,7 @@
    failing inputs (PROPFAIL); the model is only used to attribute a failure to a known cause.
    Definitions only. *)
 From Coq Require Import List String ZArith Bool Ascii.
-From Cog Require Export Model.GoSem Model.GoSemSpec08 Model.GoSemSpec01.
+From Cog Require Export Model.GoSem Model.GoSemSpec08 Model.GoSemSpec08F Model.GoSemSpec01 Model.GoSemSpec01F.
 Import ListNotations.
 Local Open Scope list_scope.
 Local Open Scope string_scope.
@@ -145,7 +145,7 @@ Definition pf_reencode_strict (c : gcase) : bool :=
 (* the statement of go_roundtrip_nf_partial evaluated on the model for the case's documents: a document
    in the safe fragment on which the conclusion fails (must never happen: the theorem says so) *)
 Definition in_safe_fragment (ctx : schemas) (p n : string) (d : json) : bool :=
-  (ir_valid_object ctx p n d && roundtrip_safe ctx p n d && json_wf d)%bool.
+  (ir_valid_object ctx p n d && roundtrip_safeF ctx p n d && json_wf d)%bool.
 Definition mm_rt_spec (c : gcase) : bool :=
   let '(ctx, p, n, docs, _, _) := c in
   (negb (case_unmodelled c) &&
